@@ -12,7 +12,10 @@ RULE = ('inputs: char soup over all code points (NUL, C0 controls, lone '
         'tests/files/*.sql, grammar scripts, and EVERY sequence of <=2 '
         '(quick) / <=3 (thorough) atoms of a 40-atom opener/terminator set; '
         'every 10th input is also tokenized while a second tokenization is '
-        'consumed alternately (two live generators of the shared lexer). '
+        'consumed alternately (two live generators of the shared lexer), '
+        'and every 10th a text never seen before is tokenized part-way '
+        '(dropped / closed / suspended / a second run started) and then '
+        'completely, twice. '
         'distinct_nontrivial = distinct token-type sequences of length >= 2 '
         'observed on the real lexer output')
 EXHAUSTIVE_PART = ('atom sequences up to the stated length are enumerated '
